@@ -296,3 +296,5 @@ func numLess(a, b constant.Value) bool {
 	fb, _ := constant.Float64Val(constant.ToFloat(b))
 	return fa < fb
 }
+
+func allocName(s *px.Sym) string { return px.AllocName(s) }
